@@ -89,7 +89,7 @@ PROPS["C19"] = dict(
         job("random", "^TestRandomSequences$", (1, 8), (4000, 40000), (600, 3000)),
         job("exhaustive-constraints", "^TestExhaustiveConstraints$", (2, 16), (1, 1), (600, 3000), pkg="c19h"),
         job("random-constraints", "^TestRandomConstraints$", (1, 4), (3000, 30000), (600, 3000), pkg="c19h"),
-        job("concurrent", "^TestConcurrent$", (1, 8), (300, 3000), (600, 3000), race=True),
+        job("concurrent", "^TestConcurrent$", (1, 8), (300, 3000), (600, 3000), race=True, race_attributed=True),
     ],
 )
 PROPS["C10"] = dict(
@@ -151,7 +151,8 @@ PROPS["C04"] = dict(
     rule=("schemas: trees (depth<=3) of objects/arrays whose scalar nodes carry the C02 rule sets and whose arrays may carry minItems/maxItems, objects additionalProperties; inline and multi-line annotations. "
           "non-trivial: (a) Check succeeded and a rule sits at depth>=1; (b) every corruption. distinct by schema text"),
     assumptions=["a corrupted value violates the targeted rule (constructed from the rule parameter with exact arithmetic / regexp)"],
-    jobs=[job("check-vs-example", "^TestCheckVsExample$", (4, 16), (3000, 30000), (600, 3000))],
+    jobs=[job("check-vs-example", "^TestCheckVsExample$", (4, 16), (3000, 30000), (600, 3000)),
+          job("type-rule-reference", "^TestTypeRuleReference$", (2, 8), (3000, 30000), (600, 3000))],
 )
 PROPS["C08"] = dict(
     pkg="c08", level="exploration", exhaustive_claim=False,
